@@ -28,6 +28,7 @@ class Candle:
     timestamp: Optional[datetime] = None
     clean_values: Dict[str, float | int]
     _tag: Optional[str] = None
+    _filler: bool = False
     indicators: Dict[str, float | Dict[str, float | None] | None]
     sub_indicators: Dict[str, float | Dict[str, float | None] | None]
 
